@@ -237,7 +237,7 @@ class Random(HypPart):
     rule = ('texts from pools G1 raw strings / G2 line fragments / G3 spec mutations / G4 grammar documents / G5 pumped '
             'snippets (<= 4 KB) x the 11 renderer configurations with drawn options x input form; non-trivial = parse has a '
             'token other than Paragraph/RawText/LineBreak or an (admissible) exception was raised; distinct = distinct case')
-    required_labels = {'pool:G5-pumped': 0.01, 'renderer:Jira': 0.03, 'renderer:Markdown': 0.03, 'form:file': 0.05}
+    required_labels = {'pool:G5-pumped': 0.01, 'pool:G5-nested': 0.005, 'renderer:Jira': 0.03, 'renderer:Markdown': 0.03, 'form:file': 0.05}
 
     def strategy(self, tier):
         return tapes(60, 900)
@@ -247,6 +247,8 @@ class Random(HypPart):
         while not t.exhausted():
             if t.chance(30):
                 pool, text = 'G5-pumped', pools.pumped(t, 4096)
+            elif t.chance(12):
+                pool, text = 'G5-nested', pools.nested_pump(t)
             elif t.chance(40):
                 # payload-bearing snippets of the escaping properties: unusual characters in destinations, titles,
                 # info strings, definitions, cells — the places where renderers format text into templates
